@@ -20,7 +20,7 @@ from harness.core import Broken, Ctx, Failure, LeanDriver, Prop, Result, diff_st
 GEN_PROGS = core.LEAN / "QmiModel" / "Gen" / "OpenProgs.lean"
 GEN_OBL = core.LEAN / "QmiModel" / "Gen" / "OpenProgsObligations.lean"
 
-FAULT_POINT_KINDS = ("tOpen", "io")
+FAULT_POINT_KINDS = ("tOpen", "io", "tClose")
 
 
 class TranslatorRefusal(Exception):
@@ -105,10 +105,14 @@ class C19(Prop):
         "persists for the rest of the open() call",
     ]
     modelled_not_verified = [
-        "concrete transports (serial/TCP/UDP/USBTMC/VXI-11): replaced by a recording QMI_Transport subclass; only the "
-        "base-class state machine (open/close/_check_is_open) is exercised",
+        "concrete transports (serial/TCP/UDP/USBTMC/VXI-11): replaced by a recording QMI_Transport subclass that goes through "
+        "the base-class open()/close()/_check_is_open() logic; a failing close() is modelled as 'flag cleared, then raises' "
+        "(what every shipped transport does: base class first, OS resource second)",
         "what happens *inside* an `io` statement (helper methods, SCPI protocol objects): one potentially-raising step",
-        "faults inside close(); more than one fault per open(); BaseException (KeyboardInterrupt) during open()",
+        "BaseException (KeyboardInterrupt) during open()/close(): not an `Exception` kind of the model; drivers' `except "
+        "Exception` handlers do not run for it",
+        "vendor-library based drivers (PicoQuant, ADwin, Zurich Instruments …): only the flag protocol of QMI_Instrument "
+        "transfers (gen_QMI_Instrument, double_open_close_refused, guarded_method_refused); their handles are not modelled as links",
         "background threads of drivers (Bristol reader thread) are kept away from the fake transport",
     ]
 
@@ -164,25 +168,36 @@ class C19(Prop):
         return b, o
 
     def _model_plan(self, cr: _ClassRun, which: str, o) -> str:
-        """The model plan corresponding to an implementation run: fault at the statement where the first exception
-        surfaced in open(), index = number of fault points executed before it."""
-        if o.first_exc is None:
-            return "-"
-        code, ln, kind, _txt = o.first_exc
-        a = cr.atom_of(which, code, ln)
+        """The model plan corresponding to an implementation run: one entry per exception that surfaced in a
+        potentially-raising statement of the traced function(s), index = number of fault points executed before it.
+        A refusal by the transport's own state check (open on an open link, close on a closed one) is not a fault:
+        the model raises it by itself and does not count it as a fault point."""
         atoms = cr.atoms[which]
-        if a is None or atoms[a].kind not in FAULT_POINT_KINDS:
-            return "-"
-        tr = cr.atom_trace(which, o.lines)
-        # executed atoms up to (excluding) the first execution of the raising atom
-        if a in tr:
-            before = tr[:tr.index(a)]
-        else:
-            before = tr
-        j = sum(1 for x in before if atoms[x].kind in FAULT_POINT_KINDS)
-        if kind in ("budget", "watchdog", "base"):
-            return "-"
-        return f"{j}:{kind}"
+        tr: list = []
+        nfp = 0
+        entries: list = []
+        for ev in o.events:
+            a = cr.atom_of(which, ev[1], ev[2])
+            if ev[0] == "line":
+                if a is not None and (not tr or tr[-1] != a):
+                    tr.append(a)
+                    if atoms[a].kind in FAULT_POINT_KINDS:
+                        nfp += 1
+                continue
+            kind = ev[3]
+            if a is None or atoms[a].kind not in FAULT_POINT_KINDS or not tr or tr[-1] != a:
+                continue
+            if kind in ("budget", "watchdog", "base"):
+                continue
+            if atoms[a].kind in ("tOpen", "tClose") and kind == "invalidOp":
+                nfp -= 1
+                tr.append(-1)          # so that a later exception event on the same line is not attributed again
+                continue
+            idx = nfp - 1
+            if entries and entries[-1][0] == idx:
+                continue
+            entries.append((idx, kind))
+        return "-" if not entries else ",".join(f"{j}:{k}" for j, k in entries)
 
     def _impl_line(self, cr: _ClassRun, which: str, o) -> str:
         res = o.result if o.result in ("ok",) or o.result.startswith("exc:") else "aborted:" + o.result
@@ -300,6 +315,156 @@ class C19(Prop):
                                  {"kind": "fault", **e["first"], "signature": sig}))
         return fails, n_calls, free_ok
 
+    # -- several faults in one open() ---------------------------------------------
+    def _sweep_multi(self, cr: _ClassRun, ctx: Ctx, res: Result, lines, impl, meta, with_model: bool, n_calls: int):
+        """Two faults in one open(): the k1-th transport call fails, and then the k2-th (k1 < k2 ≤ k1+reach) — which
+        is typically the `close()` of the cleanup handler or the next I/O of a post-flag sequence."""
+        D = cr.D
+        combos = [("timeout", "os"), ("os", "instr")] if ctx.quick else [(a, b) for a in D.EXC_KINDS for b in D.EXC_KINDS]
+        reach = ctx.scale(2, 4)
+        found: dict = {}
+        for k1 in range(1, n_calls + 1):
+            for k2 in range(k1 + 1, k1 + 1 + reach):
+                for ka, kb in combos:
+                    b = cr.builder.build(cr.cls, cr.variant)
+                    b.sess.reset_counters([D.Plan(k1, ka), D.Plan(k2, kb)])
+                    o = D.call_traced(b, "open", cr.maps["open"])
+                    nf = len(b.sess.fired_list)
+                    second = b.sess.fired_list[1] if nf > 1 else None
+                    res.note_case((cr.name, "2faults", k1, ka, k2, kb, o.result, o.flag), nontrivial=(nf == 2))
+                    res.count("two_fault_runs")
+                    if nf < 2:
+                        continue            # the second call never happened: same as the single-fault run
+                    res.count("two_faults_both_fired")
+                    res.count("second_fault_at_" + second[1])
+                    if with_model and cr.prog is not None:
+                        plan = self._model_plan(cr, "open", o)
+                        lines += [f"reset {cr.name}", f"open {plan}"]
+                        impl += [f"ok nlinks={len(cr.prog.links)}", self._impl_line(cr, "open", o)]
+                        meta += [None, {"class": cr.cls.__name__, "variant": cr.variant, "fault": f"{k1}:{ka},{k2}:{kb}",
+                                        "model_plan": plan, "impl_io": self._impl_io(cr, "open", o), "exc": o.exc}]
+                    clause = D.classify(o.flag, o.links)
+                    if clause is None and o.result not in ("budget", "watchdog"):
+                        clause = self._recovery(cr, b, o, True)
+                    if clause:
+                        o1, n1, s1 = cr.site_text("open", b.sess.fired_list[0][2] if b.sess.fired_list else None)
+                        o2, n2, s2 = cr.site_text("open", second[2])
+                        key = (o1, n1, s1, second[1], n2, s2, clause)
+                        e = found.setdefault(key, {"kinds": set(), "first": None, "detail": ""})
+                        e["kinds"].add(f"{ka}+{kb}")
+                        if e["first"] is None:
+                            e["first"] = {"class": cr.cls.__name__, "module": cr.cls.__module__, "variant": cr.variant,
+                                          "k": k1, "fault_kind": ka, "k2": k2, "fault_kind2": kb}
+                            e["detail"] = f"is_open()={o.flag} links={o.links} after open() raised {o.exc!r}"
+        fails = []
+        for (o1, n1, s1, op2, n2, s2, clause), e in sorted(found.items()):
+            sig = f"{o1}.open 2 faults: stmt {n1} `{s1}` then stmt {n2} `{s2}` ({op2}) -> {clause} [{','.join(sorted(e['kinds']))}]"
+            fails.append(Failure(sig, f"{cr.name}: two faults in open(): {sig}; {e['detail']}",
+                                 {"kind": "fault2", **e["first"], "signature": sig}))
+        return fails
+
+    # -- faults inside close() ----------------------------------------------------
+    def _sweep_close(self, cr: _ClassRun, ctx: Ctx, res: Result, lines, impl, meta, with_model: bool):
+        """After a fault-free open(): the k-th transport call of close() (a final I/O, or a transport's close()
+        itself) fails.  The instrument must end fully closed with every link released, or stay fully open."""
+        D = cr.D
+
+        def opened():
+            b = cr.builder.build(cr.cls, cr.variant)
+            b.sess.reset_counters(None)
+            o = D.call_traced(b, "open", cr.maps["open"])
+            return b, o
+        b0, o0 = opened()
+        if o0.result != "ok" or not o0.flag:
+            return []
+        b0.sess.reset_counters(None)
+        c0 = D.call_traced(b0, "close", cr.maps["close"])
+        n_close = b0.sess.n
+        res.count("transport_calls_in_fault_free_close", n_close)
+        found: dict = {}
+        for k in range(1, n_close + 1):
+            for kind in D.ALL_FAULTS:
+                b, o = opened()
+                b.sess.reset_counters(D.Plan(k, kind))
+                c = D.call_traced(b, "close", cr.maps["close"])
+                fired = b.sess.fired
+                if fired is None:
+                    res.count("close_junk_not_applicable(non-read call)")
+                    continue
+                res.note_case((cr.name, "close", k, kind, c.result, c.flag, tuple(sorted(c.links.items()))), nontrivial=True)
+                res.count("close_fault_" + kind)
+                res.count("close_fault_at_" + fired[1])
+                res.count("state_after_faulty_close_" + (D.classify(c.flag, c.links) or ("fully-open" if c.flag else "fully-closed")))
+                if with_model and cr.prog is not None:
+                    plan = self._model_plan(cr, "close", c)
+                    lines += [f"reset {cr.name}", "open -", f"close {plan}"]
+                    impl += [f"ok nlinks={len(cr.prog.links)}", self._impl_line(cr, "open", o), self._impl_line(cr, "close", c)]
+                    meta += [None, {"class": cr.cls.__name__, "variant": cr.variant, "fault": "none"},
+                             {"class": cr.cls.__name__, "variant": cr.variant, "fault": f"close {k}:{kind}", "model_plan": plan,
+                              "impl_io": self._impl_io(cr, "close", c), "exc": c.exc}]
+                clause = D.classify(c.flag, c.links)
+                if clause is None and c.result not in ("budget", "watchdog"):
+                    b.sess.reset_counters(None)
+                    if c.flag:      # still fully open: close() must work now
+                        c2 = D.call_traced(b, "close", cr.maps["close"])
+                        if c2.result != "ok" or c2.flag or any(c2.links.values()):
+                            clause = f"second-close-fails({c2.exc[:50]})"
+                    else:           # fully closed: the instrument can be opened again
+                        r = D.call_traced(b, "open", cr.maps["open"])
+                        if r.result != "ok" or not r.flag or not all(r.links.values()):
+                            clause = f"reopen-fails({r.exc[:50]})"
+                if clause:
+                    owner, ordinal, src = cr.site_text("close", fired[2])
+                    e = found.setdefault((owner, ordinal, src, clause), {"kinds": set(), "first": None, "detail": ""})
+                    e["kinds"].add(kind)
+                    if e["first"] is None:
+                        e["first"] = {"class": cr.cls.__name__, "module": cr.cls.__module__, "variant": cr.variant,
+                                      "k": k, "fault_kind": kind}
+                        e["detail"] = (f"is_open()={c.flag} links={c.links} after close() raised {c.exc!r}; "
+                                       f"transport calls: {[(x[0], x[1], x[3]) for x in c.calls][-5:]}")
+        # close() of an instrument that has been *used*: every RPC method is called once on the open instrument
+        # (generic arguments, failures ignored) so that state-dependent branches of close() run (timers, heaters,
+        # background threads …); then close() without any fault must leave a consistent state.
+        try:
+            b, o = opened()
+            used = 0
+            for name in D.rpc_methods(cr.cls):
+                args = D.generic_args(getattr(cr.cls, name))
+                if args is None:
+                    continue
+                b.sess.reset_counters(None)
+                r = D.call_traced(b, name, [], *args)
+                used += 1
+                if r.result in ("budget", "watchdog"):
+                    break
+            if b.inst.is_open() and all(t._is_open for t in b.fakes.values()):
+                b.sess.reset_counters(None)
+                c = D.call_traced(b, "close", cr.maps["close"])
+                res.count("close_after_use_runs")
+                res.count("close_after_use_" + c.result.split(":")[0])
+                res.note_case((cr.name, "close-after-use", c.result, c.flag), nontrivial=True)
+                clause = D.classify(c.flag, c.links)
+                if clause and c.result not in ("budget", "watchdog"):
+                    owner = next(k for k in cr.cls.__mro__ if "close" in k.__dict__).__name__
+                    site = (c.first_exc[0], c.first_exc[1]) if c.first_exc else None
+                    _o, ordinal, src = cr.site_text("close", site)
+                    e = found.setdefault((owner, ordinal, src, clause + "-after-use"), {"kinds": set(), "first": None, "detail": ""})
+                    e["kinds"].add("none")
+                    e["first"] = e["first"] or {"class": cr.cls.__name__, "module": cr.cls.__module__, "variant": cr.variant,
+                                                "k": 0, "fault_kind": "none"}
+                    e["detail"] = (f"after calling {used} RPC methods on the open instrument, close() without any fault raised "
+                                   f"{c.exc!r} and left is_open()={c.flag} links={c.links}")
+        except Exception as e:
+            res.count("close_after_use_harness_error")
+        fails = []
+        for (owner, ordinal, src, clause), e in sorted(found.items()):
+            kinds = ",".join(sorted(e["kinds"]))
+            sig = f"{owner}.close stmt {ordinal} `{src}` -> {clause} [{kinds}]"
+            fails.append(Failure(sig, f"{cr.name}: fault ({kinds}) in statement {ordinal} `{src}` of {owner}.close() "
+                                      f"leaves the instrument {clause}; {e['detail']}",
+                                 {"kind": "closefault", **e["first"], "signature": sig}))
+        return fails
+
     # -- histories ------------------------------------------------------------
     def _history(self, cr: _ClassRun, ops: list, lines, impl, meta, with_model: bool):
         """open/close/is_open sequence on one instance. An op is "open" | "close" | "isopen" | ["open", k, kind]
@@ -317,7 +482,7 @@ class C19(Prop):
             plan = None
             if not isinstance(op, str):
                 plan = D.Plan(int(op[1]), str(op[2]))
-                op = "open"
+                op = str(op[0])
             b.sess.reset_counters(plan)
             opens0 = dict(b.sess.link_opens)
             closes0 = dict(b.sess.link_closes)
@@ -343,6 +508,11 @@ class C19(Prop):
                     break
                 if o.result == "ok" and any(v != 1 for v in d_open.values()):
                     clause = clause or "open-does-not-open-each-link-exactly-once"
+                ref_open = o.flag
+            elif op == "close" and plan is not None and ref_open:
+                # a fault inside close(): the sweep over close() reports inconsistent outcomes with its own signature
+                if o.result in ("budget", "watchdog") or D.classify(o.flag, o.links) is not None:
+                    break
                 ref_open = o.flag
             elif op == "open":
                 if not ref_open:
@@ -395,6 +565,11 @@ class C19(Prop):
             if b.inst.is_open() or any(t._is_open for t in b.fakes.values()):
                 return None      # reported by the history oracle
         bad = []
+        try:
+            from harness import tr_openprogs as T
+            static = T.guard_table(cr.cls)
+        except Exception:
+            static = {}
         for name in D.rpc_methods(cr.cls):
             fn = getattr(cr.cls, name)
             args = D.generic_args(fn)
@@ -406,17 +581,116 @@ class C19(Prop):
             o = D.call_traced(b, name, [], *args)
             res.count("rpc_calls_on_closed_instrument")
             res.count("rpc_closed_outcome_" + (o.result if not o.result.startswith("exc:") else "refused/" + o.result[4:]))
+            attempted = len(b.sess.calls) > 0
+            st = static.get(name)
+            if st is not None:
+                res.count(f"rpc_static_{st}" + ("_transport_asked" if attempted else "_transport_not_asked"))
+                if st != "UNGUARDED" and attempted:
+                    # the static analysis claims an instrument-level check comes first, the real method asked the transport
+                    res.broken.append(Broken("correspondence", f"C19.guard_analysis.{cr.cls.__name__}.{name}",
+                                             f"static analysis says {st}, but on the closed instrument the method reached the "
+                                             f"transport: {[(c[0], c[1], c[3]) for c in b.sess.calls][:4]}",
+                                             case={"class": cr.cls.__name__, "variant": cr.variant, "method": name}))
             if b.sess.device_io != io0 or any(o.links.values()) or o.flag:
                 bad.append((name, f"device_io={b.sess.device_io - io0} links={o.links} is_open={o.flag}"))
                 break
         return bad
 
+    # -- drivers that are not transport-based: the flag protocol of QMI_Instrument alone ---------------------------
+    def _base_histories(self, ctx: Ctx, res: Result, lines, impl, meta, with_model: bool):
+        """QMI_Instrument itself and every shipped driver that inherits open()/close() unchanged and can be constructed
+        here (ADwin, dummy, SIM922 …): open/close/is_open histories against the model program `QMI_Instrument`
+        (nlinks = 0), oracle = the reference flag automaton."""
+        from harness import c19_dyn as D
+        from qmi.core.instrument import QMI_Instrument
+        import inspect as _insp
+        D.import_instrument_modules()
+        seen = []
+
+        def walk(c):
+            for k in c.__subclasses__():
+                if k not in seen:
+                    seen.append(k)
+                    walk(k)
+        walk(QMI_Instrument)
+        cands = [QMI_Instrument] + sorted(
+            (k for k in seen if k.__module__.startswith("qmi.instruments.") and "open" not in
+             {n for c in k.__mro__ if c is not QMI_Instrument and c.__module__.startswith("qmi.instruments.") for n in c.__dict__}
+             and "close" not in {n for c in k.__mro__ if c is not QMI_Instrument and c.__module__.startswith("qmi.instruments.")
+                                 for n in c.__dict__}),
+            key=lambda k: k.__name__)
+        hist = [["open", "isopen", "open", "close", "isopen", "close", "open", "close"], ["close", "isopen", "open", "close"]]
+        hist += [[ctx.rng.choice(["open", "close", "isopen"]) for _ in range(ctx.rng.randint(3, 10))] for _ in range(ctx.scale(3, 20))]
+        for cls in cands:
+            inst = None
+            for desc in ("x", "tcp:localhost:1", 1):
+                try:
+                    sig = _insp.signature(cls.__init__)
+                    kw = {}
+                    for n, prm in list(sig.parameters.items())[3:]:
+                        if prm.default is _insp.Parameter.empty and prm.kind not in (prm.VAR_POSITIONAL, prm.VAR_KEYWORD):
+                            a = prm.annotation if isinstance(prm.annotation, str) else getattr(prm.annotation, "__name__", "")
+                            kw[n] = {"int": 1, "float": 1.0, "bool": False}.get(a, desc)
+                    with D._Alarm():
+                        inst = cls(D._StubContext(), "dut", **kw)
+                    break
+                except Exception:
+                    inst = None
+            if inst is None:
+                res.count("base_protocol_classes_not_constructible_here")
+                continue
+            res.count("base_protocol_classes")
+            for ops in hist:
+                try:
+                    with D._Alarm():
+                        inst = type(inst)(D._StubContext(), "dut", **kw)
+                except Exception:
+                    break
+                ref = False
+                if with_model:
+                    lines.append("reset QMI_Instrument")
+                    impl.append("ok nlinks=0")
+                    meta.append(None)
+                for op in ops:
+                    if op == "isopen":
+                        v = bool(inst.is_open())
+                        out = "1" if v else "0"
+                        bad = v != ref
+                        ln = "isopen"
+                    else:
+                        try:
+                            getattr(inst, op)()
+                            r = "ok"
+                        except Exception as e:
+                            r = "exc:" + D.kind_of_exception(e)
+                        want_ok = (op == "open") != ref
+                        bad = (r == "ok") != want_ok
+                        if r == "ok":
+                            ref = (op == "open")
+                        bad = bad or bool(inst.is_open()) != ref
+                        ln = f"{op} -"
+                        out = f"res={r} flag={1 if inst.is_open() else 0} links=- trace={'1' if True else '-'}"
+                    if with_model:
+                        lines.append(ln)
+                        impl.append(out)
+                        meta.append({"class": cls.__name__, "variant": "", "history": ops, "base_protocol": True})
+                    if bad:
+                        sig_ = f"{cls.__name__} flag protocol -> history violates the open/close automaton"
+                        res.failures.append(Failure(sig_, f"{cls.__name__}: history {ops}: {op} behaved wrongly",
+                                                    {"kind": "base_history", "class": cls.__name__, "ops": ops, "signature": sig_}))
+                        break
+                res.note_case((cls.__name__, "base-hist", tuple(ops)), nontrivial=("open" in ops and "close" in ops))
+                res.count("base_protocol_histories")
+
     # ------------------------------------------------------------------ correspondence
     def _run_all(self, ctx: Ctx, with_model: bool, only: Optional[set] = None) -> Result:
         res = Result(rule="case = (driver class[variant], k, fault kind): the k-th transport call of the real open() "
                           "(link opening included) raises timeout / instrument error / OS error or returns a junk reply; "
-                          "k sweeps 1 … (#calls of the fault-free open)+1 for every one of the discovered classes; plus "
-                          "seeded open/close/is_open histories and every RPC method on the closed instrument. "
+                          "k sweeps 1 … (#calls of the fault-free open)+1 for every one of the discovered classes; two faults per "
+                          "open() (k1 < k2 ≤ k1+reach); every transport call of close() faulty after a fault-free open(); close() after "
+                          "every RPC method was used once; a fixed corpus + seeded open/close/is_open histories with faulty opens and "
+                          "closes; every RPC method on the closed instrument (cross-checked against the static guard analysis); "
+                          "flag-protocol histories on non-transport drivers. "
                           "non-trivial = the fault actually fired; distinct by (class, k, kind, outcome)")
         from harness import c19_dyn as D
         runs = self._class_runs()
@@ -433,6 +707,14 @@ class C19(Prop):
                 continue
             res.failures += fails
             res.count("transport_calls_in_fault_free_open", n_calls)
+            try:
+                res.failures += self._sweep_multi(cr, ctx, res, lines, impl, meta, with_model, n_calls)
+                cfails = self._sweep_close(cr, ctx, res, lines, impl, meta, with_model)
+                res.failures += cfails
+            except Exception as e:
+                res.broken.append(Broken("correspondence", f"C19.sweep2.{cr.name}",
+                                         f"{type(e).__name__}: {e}\n{traceback.format_exc()[-1500:]}"))
+                cfails = []
             # the static verdict must be reproduced dynamically (and vice versa — the line diff below covers that)
             v = self._verdicts.get(cr.name)
             if with_model and v is not None:
@@ -444,15 +726,31 @@ class C19(Prop):
                                              f"of the injected faults (timeout, instrument error, OS error, junk reply at every transport "
                                              f"call) reproduces it on the real class", case={"class": cr.cls.__name__, "variant": cr.variant}))
                 model_bad[cr.name] = v["bad_plans"]
+                if v.get("close_bad_plans") and not cfails:
+                    res.broken.append(Broken("correspondence", f"C19.closewitness.{cr.name}",
+                                             f"the model refutes consistency after close() under plan {v['close_bad_plans'][0]} "
+                                             f"(theorem closebad_{cr.name}) but no injected fault reproduces it on the real class",
+                                             case={"class": cr.cls.__name__, "variant": cr.variant}))
             # histories
-            n_hist = ctx.scale(5, 150)
+            n_hist = ctx.scale(10, 150)
+            # fixed corpus, run first on every seed: the same operation twice, unusual order, one object reused over
+            # several rounds, a faulty open() on an open instrument, the same fault twice, a fault index beyond the end,
+            # a fault in close() followed by a second close()/open()
             fixed = [["open", "isopen", "open", "close", "isopen", "close", "open", "close"],
-                     ["close", "isopen", "open", "open", "close", "close"]]
+                     ["close", "isopen", "open", "open", "close", "close"],
+                     ["open", ["open", 1, "timeout"], "isopen", "close", "close", "isopen"],
+                     [["open", 1, "os"], "isopen", "open", "isopen", "close"],
+                     [["open", 2, "timeout"], ["open", 2, "timeout"], "open", "isopen", "close", ["open", n_calls + 5, "os"], "close"],
+                     ["open", "close", "open", "close", "open", "close", "isopen"],
+                     ["open", ["close", 1, "os"], "isopen", "close", "open", "close"],
+                     [["open", n_calls, "instr"], "close", "open", ["close", 2, "timeout"], "isopen"]]
 
             def gen_op():
                 r = ctx.rng.random()
-                if r < 0.3:
+                if r < 0.25:
                     return ["open", ctx.rng.randint(1, n_calls + 1), ctx.rng.choice(D.ALL_FAULTS)]
+                if r < 0.33:
+                    return ["close", ctx.rng.randint(1, 3), ctx.rng.choice(D.EXC_KINDS)]
                 return ctx.rng.choice(["open", "close", "isopen", "open", "close"])
             for h in range(n_hist):
                 ops = fixed[h] if h < len(fixed) else [gen_op() for _ in range(ctx.rng.randint(3, ctx.scale(12, 20)))]
@@ -500,6 +798,11 @@ class C19(Prop):
         res.failures = kept
         if dropped:
             res.extra["further_distinct_failures_not_listed"] = dropped
+        if only is None:
+            try:
+                self._base_histories(ctx, res, lines, impl, meta, with_model)
+            except Exception as e:
+                res.broken.append(Broken("correspondence", "C19.base_histories", f"{type(e).__name__}: {e}\n{traceback.format_exc()[-1200:]}"))
         res.extra["model_counter_examples"] = {k: [list(b) if b else None for b in v][:6] for k, v in model_bad.items() if v}
         res.extra["untranslatable"] = self._untranslatable
         # model side
@@ -554,6 +857,13 @@ class C19(Prop):
                 if f.replay.get("k") == rp.get("k") and f.replay.get("fault_kind") == rp.get("fault_kind"):
                     return f
             return fails[0] if fails and not rp.get("signature") else None
+        if rp.get("kind") in ("closefault", "fault2"):
+            fails = (self._sweep_close(cr, ctx, res, [], [], [], False) if rp["kind"] == "closefault"
+                     else self._sweep_multi(cr, ctx, res, [], [], [], False, self._one_open(cr, None)[0].sess.n))
+            for f in fails:
+                if f.signature == rp.get("signature"):
+                    return f
+            return fails[0] if fails else None
         if rp.get("kind") == "history":
             clause = self._history(cr, rp["ops"], [], [], [], with_model=False)
             return Failure(rp.get("signature", "?"), f"{cr.name}: history {rp['ops']}: {clause}", rp) if clause else None
